@@ -7,7 +7,12 @@ open Pew Pew.Srr
 
 /-- The reported extent of an image is `(0, columns × pixel width, 0, rows × pixel height)` with
 pixel width = speed × scan time and pixel height = spot size for a raster configuration, and the
-x / y spot spacing for a spot configuration.  All parameters, all shapes. -/
+x / y spot spacing for a spot configuration.  All parameters, all shapes.
+(Model mechanism and specification are the same formula up to commutativity, so by itself this says little; its
+content comes from the structural tie: on every run `harness/structural.py` translates `get_pixel_width`,
+`get_pixel_height`, `data_extent` of `Config` / `SpotConfig` from the source and proves the translated terms equal to
+`extentSpec`, and `harness/structural_c10.py` does the same for the SRR pixel sizes, `SRRLaser.extent`, `magnification`,
+the warm-up setter, `subpixels_per_pixel` and the extent → index conversion of `Laser.get`.) -/
 theorem extent_spec {α : Type} (data : Arr2 α) :
     (∀ spotsize speed scantime : Rat,
       laserExtent (.raster spotsize speed scantime) data
